@@ -16,19 +16,21 @@ grep -q "^package ztest" $DEMOS 2>/dev/null && PKGDIR=internal/ztest
 rm -f $PKGDIR/zz_demo*_test.go
 n=0; for f in $DEMOS; do n=$((n+1)); cp "$f" "$PKGDIR/zz_demo${I}x${n}_test.go"; done
 ls zz_demo* >/dev/null 2>&1 || { echo "no demo test files"; }
+RACE=""; grep -q "go test -race" $M/m$I.md 2>/dev/null && RACE="-race"
 TAGS=""; grep -lq "VerifSetHooks\|go:build verif" $PKGDIR/zz_demo*_test.go 2>/dev/null && TAGS="-tags verif"
 RUNRE=$(grep -ho "^func Test[A-Za-z0-9_]*" $PKGDIR/zz_demo*_test.go | sed 's/func //' | paste -sd'|')
-without=PASS; go test $TAGS -vet=off -count=2 -run "^($RUNRE)\$" ./$PKGDIR >/tmp/x/demo.without 2>&1 || without=FAIL
+without=PASS; go test $RACE $TAGS -vet=off -count=2 -run "^($RUNRE)\$" ./$PKGDIR >/tmp/x/demo.without 2>&1 || without=FAIL
 git apply "$D" || { echo "patch does not apply"; exit 2; }
 go build ./... && go vet . >/dev/null 2>&1 && GOOS=freebsd go build . && GOOS=windows go build . ; builds=$?
-with=PASS; for k in 1 2 3; do go test $TAGS -vet=off -count=1 -run "^($RUNRE)\$" ./$PKGDIR >/tmp/x/demo.with 2>&1 || { with=FAIL; break; }; done
+with=PASS; for k in 1 2 3; do go test $RACE $TAGS -vet=off -count=1 -run "^($RUNRE)\$" ./$PKGDIR >/tmp/x/demo.with 2>&1 || { with=FAIL; break; }; done
 mv $PKGDIR/zz_demo*_test.go /tmp/x/ 2>/dev/null
 suite=$(go test -vet=off -count=1 . ./internal/... 2>&1 | grep -E "^\s*--- FAIL" | grep -v "TestAdd \|permission_denied\|TestWatchMultipleWrite" | tr -s ' ' | paste -sd';')
 git checkout -q -- .
 echo "[$P m$I] builds=$builds demo-without=$without demo-with=$with suite-unexpected-failures='${suite}'"
 # 2) run my checks against it
 cd /verif
-git -C /repo apply "$D" || { echo "does not apply to /repo"; exit 2; }
+git -C /repo apply "$D" 2>/dev/null || git -C /repo apply --3way "$D" || { echo "does not apply to /repo"; git -C /repo reset -q --hard HEAD; exit 2; }
+(cd /repo && go build ./... ) || { echo "mutated /repo does not build"; git -C /repo reset -q --hard HEAD; exit 2; }
 declare -A RES
 for c in $P $EXTRA; do
   out=$(./run.sh $c quick 2>&1); rc=$?
@@ -36,7 +38,7 @@ for c in $P $EXTRA; do
   RES[$c]="exit=$rc ${sig}"
   echo "  check $c: exit=$rc $sig"
 done
-git -C /repo checkout -- .
+git -C /repo reset -q --hard HEAD
 git -C /repo status --short | grep -v '^??' && echo "WARNING /repo not clean"
 # 3) file it
 if [ "$with" = FAIL ] && [ "$without" = PASS ] && [ "$builds" = 0 ]; then
